@@ -297,7 +297,12 @@ func (t *tr) expr(x ast.Expr) (ex, error) {
 		}
 		t.partial = true
 		return ex{s: "(← Go.slice " + atom(base.s) + " " + atom(lo) + " " + atom(hi) + ")", t: base.t, partial: true}, nil
+	case *ast.CompositeLit:
+		return t.composite(x)
 	case *ast.UnaryExpr:
+		if cl, isLit := x.X.(*ast.CompositeLit); isLit && x.Op == token.AND {
+			return t.composite(cl) // &T{…}: pointers to structs are read-only values here
+		}
 		a, err := t.expr(x.X)
 		if err != nil {
 			return ex{}, err
@@ -713,6 +718,13 @@ func (t *tr) call(x *ast.CallExpr) (ex, error) {
 		if recv.t == nil || recv.t.name == "" {
 			return ex{}, t.fail(x, "method call .%s on a value of unnamed type %v", fn.Sel.Name, recv.t)
 		}
+		if recv.t.k == kStruct && recv.t.pkg != nil && recv.t.pkg != t.p {
+			sg, ok := recv.t.pkg.fns[recv.t.name+"."+fn.Sel.Name]
+			if !ok {
+				return ex{}, t.fail(x, "call of method %s.%s of another package, which has not been translated earlier in this run", recv.t.name, fn.Sel.Name)
+			}
+			return t.callSig(x, recv.t.name+"."+fn.Sel.Name, sg, &recv, x.Args)
+		}
 		return t.callTranslated(x, recv.t.name+"."+fn.Sel.Name, &recv, x.Args)
 	}
 	return ex{}, t.fail(x, "call outside the subset")
@@ -813,4 +825,61 @@ func trExprText(x ast.Node) string {
 		return ""
 	}
 	return strings.Join(strings.Fields(sb.String()), " ")
+}
+
+// composite translates a keyed struct literal T{F: e, …}; missing fields get their zero value.
+func (t *tr) composite(x *ast.CompositeLit) (ex, error) {
+	if x.Type == nil {
+		return ex{}, t.fail(x, "composite literal without type")
+	}
+	g, err := t.ctx().resolveType(x.Type, t.prefix)
+	if err != nil {
+		return ex{}, t.fail(x, "%v", err)
+	}
+	if g.k != kStruct {
+		return ex{}, t.fail(x, "composite literal of type %s (only struct literals are in the subset)", g)
+	}
+	vals := map[string]string{}
+	part := false
+	for _, el := range x.Elts {
+		kv, ok := el.(*ast.KeyValueExpr)
+		if !ok {
+			return ex{}, t.fail(el, "positional struct literal")
+		}
+		key, ok := kv.Key.(*ast.Ident)
+		if !ok {
+			return ex{}, t.fail(el, "struct literal key")
+		}
+		var ft *gtype
+		for _, f := range g.fields {
+			if f.name == key.Name {
+				ft = f.t
+			}
+		}
+		if ft == nil {
+			return ex{}, t.fail(el, "struct %s has no field %s", g.name, key.Name)
+		}
+		e, err := t.expr(kv.Value)
+		if err != nil {
+			return ex{}, err
+		}
+		if e, err = t.as(kv.Value, e, ft); err != nil {
+			return ex{}, err
+		}
+		part = part || e.partial
+		vals[key.Name] = e.s
+	}
+	var parts []string
+	for _, f := range g.fields {
+		v, ok := vals[f.name]
+		if !ok {
+			z, err := zero(f.t)
+			if err != nil {
+				return ex{}, t.fail(x, "field %s: %v", f.name, err)
+			}
+			v = z
+		}
+		parts = append(parts, leanIdent(f.name)+" := "+v)
+	}
+	return ex{s: "({ " + strings.Join(parts, ", ") + " } : " + g.lean + ")", t: g, partial: part}, nil
 }
